@@ -1,9 +1,27 @@
 /-
-C17 — wire formats round-trip. Property theorems only (helper lemmas live in Proofs/).
+C17 — wire formats round-trip; size = length of encoding; identity depends only on content; decoders
+terminate and allocate boundedly. Property theorems only (helper lemmas live in Proofs/).
+
+Reading guide. A `Codec α` (Model/Wire/Codec.lean) is the model of one EncodeBinary/DecodeBinary pair; the five
+laws of the property are the fields of `Codec.Lawful` plus `Codec.Strict`:
+  roundtrip        wf v → dec (enc v ++ r) = some (v, r)
+  size_eq          wf v → size v = (enc v).length
+  reencode_stable  dec b = some (v, r) → wf v ∧ dec (enc v) = some (v, [])        (from dec_wf + roundtrip)
+  dec_consumes     dec b = some (v, r) → r.length < b.length                      (Strict; r is a suffix of b)
+  alloc_bounded    alloc b ≤ allocK * b.length + allocC     for EVERY input b     (every count is compared with its
+                   cap before the dependent `make`; allocK/allocC are computed from the regenerated caps)
+They are proved once per combinator (Proofs/WireCodec.lean); each instance below follows by composition.
+`cv : Curve` stands for the elliptic-curve checks of keys.PublicKey (not modelled); the only fact used is
+`cv.Sound` (compressing a valid point gives a valid compressed key), an explicit hypothesis.
 -/
 import NeoModel.Proofs.WireVarUint
 import NeoModel.Proofs.WireCodec
+import NeoModel.Proofs.WireTx
 namespace NeoModel.Wire
+open Codec
+open NeoModel.Generated
+
+/-! ## var-uint -/
 
 /-- C17 (var-uint): decode (encode v ++ rest) = (v, rest) for every 64-bit `v`. -/
 theorem varuint_roundtrip (v : Nat) (r : Bytes) (h : v < 2 ^ 64) :
@@ -16,5 +34,172 @@ example : readVarUint (putVarUint (2^64 - 1) ++ [7]) = some (2^64 - 1, [7]) :=
 /-- C17 (var-uint): the reported size is the length of the encoding (for lengths, i.e. < 2^32). -/
 theorem varuint_size_eq (v : Nat) : (putVarUint v).length = (if v ≤ 0xFFFFFFFF then varUintSize v else 9) :=
   putVarUint_length v
+
+/-- C17 (var-uint): the reader accepts non-minimal forms — the root of the path-dependent transaction hash. -/
+theorem varuint_nonminimal_accepted : readVarUint [0xfd, 0x01, 0x00] = some (1, []) ∧ putVarUint 1 = [0x01] := by
+  decide
+
+/-! ## the laws, for any lawful codec (used for every instance below) -/
+
+/-- reencode_stable: whatever a lawful decoder accepts is well-formed, and its re-encoding decodes to the same
+value with nothing left. -/
+theorem codec_reencode_stable {α : Type} (c : Codec α) (h : c.Lawful) (b : Bytes) (v : α) (r : Bytes)
+    (hd : c.dec b = some (v, r)) : c.wf v ∧ c.dec (c.enc v) = some (v, []) := h.reencode_stable hd
+
+/-- alloc_bounded: for EVERY input (accepted or not) the memory requested by count-sized `make` calls is at most
+`allocK` bytes per input byte plus the constant `allocC`. -/
+theorem codec_alloc_bounded {α : Type} (c : Codec α) (h : c.Lawful) (b : Bytes) :
+    c.alloc b ≤ c.allocK * b.length + c.allocC := h.alloc_le b
+
+/-- two well-formed values with the same encoding are equal (identity is a function of content). -/
+theorem codec_enc_injective {α : Type} (c : Codec α) (h : c.Lawful) (v w : α) (hv : c.wf v) (hw : c.wf w)
+    (he : c.enc v = c.enc w) : v = w := h.enc_inj hv hw he
+
+/-! ## instances: witness, condition, rule, signer, attribute -/
+
+/-- C17 (witness): all laws. -/
+theorem witness_lawful : witnessC.Lawful ∧ witnessC.Strict := ⟨witnessC_lawful, witnessC_strict⟩
+
+example : witnessC.dec (witnessC.enc ⟨[1, 2], [3]⟩ ++ [9]) = some (⟨[1, 2], [3]⟩, [9]) := by rfl
+
+/-- C17 (witness condition, nesting depth `d`): all laws, for every depth. -/
+theorem cond_lawful (cv : Curve) (hs : cv.Sound) (d : Nat) : (condC cv d).Lawful ∧ (condC cv d).Strict :=
+  ⟨condC_lawful cv hs d, condC_strict cv hs d⟩
+
+/-- a curve predicate that accepts everything: meets `Curve.Sound` (non-vacuity of the hypothesis). -/
+def anyCurve : Curve := ⟨fun _ => true, fun _ _ => true⟩
+theorem anyCurve_sound : anyCurve.Sound := fun _ _ _ _ _ => rfl
+
+-- non-vacuity + the depth bound: three levels decode, four do not (MaxConditionNesting = 3)
+example : (condC anyCurve WireLimits.maxConditionNesting).dec [1, 1, 0, 1]
+    = some (.not (.not (.bool true)), []) := by rfl
+example : (condC anyCurve WireLimits.maxConditionNesting).dec [1, 1, 1, 0, 1] = none := by rfl
+
+/-- C17 (witness rule): all laws. -/
+theorem rule_lawful (cv : Curve) (hs : cv.Sound) : (ruleC cv).Lawful ∧ (ruleC cv).Strict :=
+  ⟨ruleC_lawful cv hs, ruleC_strict cv hs⟩
+
+/-- C17 (signer): all laws. -/
+theorem signer_lawful (cv : Curve) (hs : cv.Sound) : (signerC cv).Lawful ∧ (signerC cv).Strict :=
+  ⟨signerC_lawful cv hs, signerC_strict cv hs⟩
+
+/-- C17 (attribute): all laws. -/
+theorem attr_lawful : attrC.Lawful ∧ attrC.Strict := ⟨attrC_lawful, attrC_strict⟩
+
+example : attrC.dec [0x20, 5, 0, 0, 0] = some (⟨0x20, .notValidBefore 5⟩, []) := by rfl
+
+/-! ## transaction -/
+
+/-- C17 (transaction) roundtrip. -/
+theorem tx_roundtrip (cv : Curve) (hs : cv.Sound) (t : Tx) (r : Bytes) (hw : (txC cv).wf t) :
+    (txC cv).dec ((txC cv).enc t ++ r) = some (t, r) := (txC_lawful cv hs).roundtrip t r hw
+
+/-- C17 (transaction) size = length of the encoding. -/
+theorem tx_size_eq (cv : Curve) (hs : cv.Sound) (t : Tx) (hw : (txC cv).wf t) :
+    (txC cv).size t = ((txC cv).enc t).length := (txC_lawful cv hs).size_eq t hw
+
+/-- C17 (transaction) an accepted input gives a well-formed value whose re-encoding decodes to it. -/
+theorem tx_reencode_stable (cv : Curve) (hs : cv.Sound) (b : Bytes) (t : Tx) (r : Bytes)
+    (hd : (txC cv).dec b = some (t, r)) : (txC cv).wf t ∧ (txC cv).dec ((txC cv).enc t) = some (t, []) :=
+  (txC_lawful cv hs).reencode_stable hd
+
+/-- C17 (transaction) decoding consumes input strictly. -/
+theorem tx_dec_consumes (cv : Curve) (hs : cv.Sound) (b : Bytes) (t : Tx) (r : Bytes)
+    (hd : (txC cv).dec b = some (t, r)) : r.length < b.length := txC_strict cv hs b t r hd
+
+/-- C17 (transaction) allocation while decoding ANY input is linear in the input plus a constant. -/
+theorem tx_alloc_bounded (cv : Curve) (hs : cv.Sound) (b : Bytes) :
+    (txC cv).alloc b ≤ (txC cv).allocK * b.length + (txC cv).allocC := (txC_lawful cv hs).alloc_le b
+
+/-- … and with the caps and element sizes the current source has, the constants are small: at most 256 bytes
+per input byte (slice elements), and a constant below 2 × io.MaxArraySize (it is dominated by the
+default cap of a Reserved attribute's ReadVarBytes). Re-checked against the regenerated table. -/
+theorem tx_alloc_constants (cv : Curve) :
+    (txC cv).allocK ≤ 256 ∧ (txC cv).allocC ≤ 2 * WireLimits.maxArraySize :=
+  ⟨txC_allocK_le cv, txC_allocC_le cv⟩
+
+/-- the smallest valid transaction: 1 signer (CalledByEntry), script 0x51, empty witness. -/
+def tx0 : Tx :=
+  ⟨⟨0, 7, 1, 2, 9, [⟨[1,2,3,0,0,0,0,0,0,0,0,0,0,0,0,0,0,0,0,0], 1, [], [], []⟩], [], [0x51]⟩, [⟨[], []⟩]⟩
+
+def tx0Bytes : Bytes := (txC anyCurve).enc tx0
+
+/-- the same content with the number of signers written as `fd 01 00` (DESIGN §6 item 12). -/
+def tx0NonMinimal : Bytes := tx0Bytes.take 25 ++ [0xfd, 0x01, 0x00] ++ tx0Bytes.drop 26
+
+theorem tx0_decodes : (txC anyCurve).dec tx0NonMinimal = some (tx0, []) := by rfl
+
+-- non-vacuity of the hypotheses of the transaction theorems: tx0 is well-formed
+example : (txC anyCurve).wf tx0 := (txC_lawful anyCurve anyCurve_sound).dec_wf _ _ _ tx0_decodes
+example : (txC anyCurve).dec (tx0Bytes ++ [1]) = some (tx0, [1]) :=
+  tx_roundtrip anyCurve anyCurve_sound tx0 [1] ((txC_lawful anyCurve anyCurve_sound).dec_wf _ _ _ tx0_decodes)
+
+/-
+hash_path_independent, full statement (FALSE on the unchanged tree):
+  ∀ H b t, (txC cv).dec b = some (t, []) →
+     txFromBytes H cv b = some (t, h₁, n₁) → txFromStream H cv b = some (t, h₂, n₂, []) → h₁ = h₂ ∧ n₁ = n₂
+NewTransactionFromBytes hashes (and sizes) the received bytes, DecodeBinary the re-encoding, and the decoder accepts
+encodings that are not the canonical one (non-minimal var-uints, uncompressed keys, bool bytes ≠ 0/1).
+Proved below: the negation on a concrete witness, and the statement for canonical input.
+-/
+
+/-- C17 (transaction) identity and size do not depend on the path WHEN the bytes are the canonical encoding. -/
+theorem tx_hash_path_independent_partial (H : Bytes → Bytes) (cv : Curve) (hs : cv.Sound) (t : Tx)
+    (hw : (txC cv).wf t) :
+    txFromBytes H cv ((txC cv).enc t)
+        = some (t, H ((txBodyC cv).enc t.body), ((txC cv).enc t).length)
+    ∧ txFromStream H cv ((txC cv).enc t)
+        = some (t, H ((txBodyC cv).enc t.body), (txC cv).size t, [])
+    ∧ (txC cv).size t = ((txC cv).enc t).length := by
+  have hr := (txC_lawful cv hs).roundtrip t [] hw
+  simp only [List.append_nil] at hr
+  have henc : (txC cv).enc t = (txBodyC cv).enc t.body ++ (txWitnessesC t.body.signers.length).enc t.witnesses := rfl
+  have hb : (txBodyC cv).dec ((txC cv).enc t)
+      = some (t.body, (txWitnessesC t.body.signers.length).enc t.witnesses) := by
+    rw [henc]; exact (txBodyC_lawful cv hs).roundtrip _ _ hw.1.1
+  refine ⟨?_, ?_, (txC_lawful cv hs).size_eq t hw⟩
+  · simp only [txFromBytes, hr, hb]
+    congr 3
+    rw [henc]; simp
+  · simp only [txFromStream, hr]
+
+/-- C17 (transaction) NEGATION of hash_path_independent on the unchanged tree: the bytes `tx0NonMinimal` decode
+to `tx0` on both paths, but for every injective hash the two paths report different hashes, and different sizes
+(55 vs 53). -/
+theorem tx_hash_path_dependent (H : Bytes → Bytes) (hinj : ∀ x y, H x = H y → x = y) :
+    ∃ h₁ n₁ h₂ n₂,
+      txFromBytes H anyCurve tx0NonMinimal = some (tx0, h₁, n₁)
+      ∧ txFromStream H anyCurve tx0NonMinimal = some (tx0, h₂, n₂, [])
+      ∧ h₁ ≠ h₂ ∧ n₁ ≠ n₂ := by
+  refine ⟨H (tx0NonMinimal.take 52), 55, H ((txBodyC anyCurve).enc tx0.body), 53, by rfl, by rfl, ?_, by decide⟩
+  intro he
+  have := hinj _ _ he
+  revert this
+  decide
+
+/-! ## header, block, state root, extensible payload -/
+
+/-- C17 (header; `sr` = StateRootInHeader): all laws. -/
+theorem header_lawful (sr : Bool) : (headerC sr).Lawful ∧ (headerC sr).Strict :=
+  ⟨headerC_lawful sr, headerC_strict sr⟩
+
+/-- C17 (header) the identity of a header is a function of its decoded content alone (Header.Hash re-encodes
+the hashable fields, header.go:96-129): two inputs that decode to the same header have the same hash — also
+when the witness count is written non-minimally. -/
+theorem header_hash_path_independent (H : Bytes → Bytes) (sr : Bool) (b₁ b₂ : Bytes) (h₁ h₂ : Header) (r₁ r₂ : Bytes)
+    (d₁ : (headerC sr).dec b₁ = some (h₁, r₁)) (d₂ : (headerC sr).dec b₂ = some (h₂, r₂)) (he : h₁ = h₂) :
+    headerHash H sr h₁ = headerHash H sr h₂ := by
+  subst he; rfl
+
+/-- C17 (block): all laws. -/
+theorem block_lawful (cv : Curve) (hs : cv.Sound) (sr : Bool) : (blockC cv sr).Lawful ∧ (blockC cv sr).Strict :=
+  ⟨blockC_lawful cv hs sr, map_strict (seq_strict_left (headerC_strict sr)
+    (array_lawful (txC_lawful cv hs) (txC_strict cv hs)))⟩
+
+/-- C17 (state root): all laws. -/
+theorem stateroot_lawful : stateRootC.Lawful := stateRootC_lawful
+
+/-- C17 (extensible payload): all laws. -/
+theorem extensible_lawful : extensibleC.Lawful := extensibleC_lawful
 
 end NeoModel.Wire
